@@ -20,7 +20,6 @@ ROWCOUNT_SITES = [
 ]
 # reasoned exceptions (one named symbol each):
 ROWCOUNT_EXEMPT = {
-    ('api', 'ParquetFile.__getitem__'): 'derived in-memory handle; its row counts are always summed from row_groups, never read from num_rows',
     ('api', 'ParquetFile.__getstate__'): 'normalises None to [] (no row group added or removed)',
     ('writer', 'write_common_metadata'): '_common_metadata carries the schema only; row groups are stripped from a private copy',
     ('api', 'ParquetFile.write_row_groups'): 're-sorts the same row groups (sorted(...)), count unchanged',
